@@ -195,7 +195,8 @@ def out_rules(F, rep):
     for f in F.funcs.values():
         if f.key not in live or f.crate not in ("ragc_core", "ragc"):
             continue
-        uses_cnv = any(_mentions_const(b, symbols.CNV) for b in f.blocks)
+        uses_cnv = any(_mentions_const(b, symbols.CNV) for b in f.blocks) or \
+            any(_mentions_const(b, symbols.CNV) for k2, f2 in F.funcs.items() if k2.startswith(f.key + "::{promoted#") for b in f2.blocks)
         if not uses_cnv or f.key.endswith("read_contig_impl"):
             continue
         if f.kind == "closure" and f.locals[0]["ty"] == "u8":
